@@ -90,7 +90,11 @@ PROPS = {
                   # handlers must also survive -optimize-grammar: the real ast.Optimize on grammars that all carry the
                   # targeted handler families (an outer recovery expression throwing a label only an inner, dynamically
                   # enclosing operator lists), original vs optimized under the reference interpreter, directed inputs
-                  tools=[("pvopt", 1500, 40000, ["-handler-shapes", "-lift", "optmerge-inverted,optshare,optthrow"])]),
+                  # ... and the GENERATOR: what builder.BuildParser emits for grammars with throw / recover (recovery operators as
+                  # non-last alternatives, handlers that cannot fail), read back and run on the real runtime, against the
+                  # reference evaluation of the AST (round 21: alternatives behind such an operator pruned by the builder)
+                  tools=[("pvopt", 1500, 40000, ["-handler-shapes", "-lift", "optmerge-inverted,optshare,optthrow"]),
+                         ("pvlower", 1500, 30000, [])]),
     "C15": h1prop("PigeonVerif.Properties.C15", P(["val", "pos", "errs", "mf"]),
                   [("core", 6000, 200000), ("utf8", 2000, 50000), ("blocks", 1000, 20000)],
                   twins=twins_c15, twin_rel=rel_c15, variants=[v for v in core.ALL_VARIANTS if v.endswith("b1")],
